@@ -1,13 +1,89 @@
 """C13 (decided on the sequential loop model; see p_seqprops.py, oracles.py, coq/props/C13.v)"""
+import os
+import subprocess
+import tempfile
+
 import p_seqprops
 
 PROPS = ["C13"]
 PROFILES = [(3, {"idle_prob": 0.4, "err_ret_prob": 0.15, "script_prob": 0.9, "idle_burst_prob": 0.12}), (1, {})]
+# scenarios without timers (their clock is virtual) for the stage whose dispatches are given a real, non-zero timeout
+TIMED_PROFILE = {"idle_prob": 0.5, "err_ret_prob": 0.1, "script_prob": 0.9, "idle_burst_prob": 0.1, "kinds": {"comp": 3, "ping": 3, "chan": 2},
+                 "n_cmds": (8, 22)}
+WAIT_MS = 15
+
+
+def timed_stage(chk, st):
+    """the same kind of scenarios with dispatch(Some(15 ms)) instead of dispatch(ZERO) (harness seqtimed): the order of events and idles, the
+    queue and the cancellations must not depend on the timeout - the trace equals the model's and passes the C13 rules"""
+    import gen_seq
+    import oracles
+    import seqlib
+    import vlib
+    n = 40 if chk.tier == "quick" else 400
+    scens = gen_seq.gen_many(chk.seed * 7919 + 13, n, TIMED_PROFILE, prefix="C13t_")
+    scens = ["=== C13t_idle_then_ping\nC newping 1 10\nC insert 1 ping 10\nC ping 1\nC idle 1\nD 0\nT\n",
+             "=== C13t_idle_queues_idle\nS 1000001 0 0 1\nA idle 2\nC newping 1 10\nC insert 1 ping 10\nC idle 1\nC ping 1\nD 0\nT\nD 1\nT\n"] + scens
+    by_id = {t.split("\n")[0][4:].strip(): t for t in scens}
+    res, err = seqlib.run_scenarios(scens)          # the model's traces (and the zero-timeout implementation run)
+    with tempfile.NamedTemporaryFile("w", suffix=".scn", delete=False, dir=os.path.join(vlib.ROOT, "replays")) as f:
+        f.write("".join(scens))
+        path = f.name
+    try:
+        p = subprocess.run([vlib.HARNESS, "seqtimed", path, str(WAIT_MS)], stdout=subprocess.PIPE, stderr=subprocess.PIPE, text=True, timeout=900)
+    finally:
+        os.unlink(path)
+    traces = seqlib.split_traces(p.stdout)
+    oracle = oracles.oracle_for(PROPS)
+    bad, diverged = [], []
+    for sid, text in by_id.items():
+        tr = [l for l in traces.get(sid, []) if l.split()[0] != "20"]
+        if sid not in res or not tr:
+            continue
+        fs = [f for f in oracle(text, tr) if not p_seqprops.classify(text, tr, f)]
+        if fs:
+            bad.append((sid, fs[0], tr))
+        elif seqlib.first_diff(tr, res[sid][1]):
+            diverged.append((sid, seqlib.first_diff(tr, res[sid][1]), tr))
+    chk.cov["timed_idle_scenarios"] = {"cases": len(scens), "judged": len([s for s in by_id if s in traces]), "failing": len(bad), "diverging_from_model": len(diverged),
+                                       "wait_ms": WAIT_MS, "rule": "harness seqtimed: every dispatch gets a real %d ms timeout; trace (without the elapsed-time lines) "
+                                                                   "judged by the C13 rules and compared with the model's trace" % WAIT_MS}
+    if bad:
+        sid, f, tr = bad[0]
+        chk.violation("oracle-timed", "C13 violated on the real code: %s\n# timed idle scenario (harness seqtimed <file> %d):\n%s# trace:\n%s"
+                      % (f, WAIT_MS, by_id[sid], "\n".join("#   " + x for x in tr)))
+    elif diverged:
+        sid, d, tr = diverged[0]
+        chk.violation("broken-timed", "C13 is no longer shown to hold: with a non-zero dispatch timeout the implementation's trace differs from the model's in %d of %d "
+                      "scenarios; first %s at line %d: impl `%s` model `%s`\n# timed idle scenario (harness seqtimed <file> %d):\n%s# trace:\n%s"
+                      % (len(diverged), len(scens), sid, d[0], d[1][:100], d[2][:100], WAIT_MS, by_id[sid], "\n".join("#   " + x for x in tr)), nofail=True)
 
 
 def main(tier, seed):
-    return p_seqprops.run("C13", tier, seed, PROFILES, props=PROPS)
+    return p_seqprops.run("C13", tier, seed, PROFILES, props=PROPS, extra_front=timed_stage)
 
 
 def replay(path):
+    txt = open(path).read()
+    if "timed idle scenario" in txt:
+        import oracles
+        import seqlib
+        import vlib
+        vlib.build_harness()
+        vlib.build_model()
+        i = txt.index("=== ")
+        j = txt.index("# trace:")
+        scn = txt[i:j]
+        with tempfile.NamedTemporaryFile("w", suffix=".scn", delete=False) as f:
+            f.write(scn)
+        p = subprocess.run([vlib.HARNESS, "seqtimed", f.name, str(WAIT_MS)], stdout=subprocess.PIPE, text=True)
+        os.unlink(f.name)
+        tr = [l for l in (list(seqlib.split_traces(p.stdout).values()) or [[]])[0] if l.split()[0] != "20"]
+        fs = oracles.oracle_for(PROPS)(scn, tr)
+        res, _ = seqlib.run_scenarios([scn])
+        d = None
+        for _, (_, model) in res.items():
+            d = seqlib.first_diff(tr, model)
+        print(fs or d or "ok")
+        return 1 if (fs or d) else 0
     return p_seqprops.replay("C13", path, props=PROPS)
